@@ -471,6 +471,45 @@ func judgeChanHistory(cfg chanCfg, out *chanOut) [][2]string {
 			}
 		}
 	}
+	// a receive may report closed-and-empty only when nothing is buffered: a value whose send had
+	// already succeeded at an earlier step and that is received (or drained) only later was sitting in
+	// the buffer when the null was returned
+	firstRecv := map[int]int{} // value -> step of its first reception by a scenario goroutine
+	sendStep := map[int]int{}
+	for _, e := range out.Events {
+		if e.Kind == "recv" && e.Ok && e.Val >= 0 {
+			if s0, ok := firstRecv[e.Val]; !ok || e.Step < s0 {
+				firstRecv[e.Val] = e.Step
+			}
+		}
+		if e.Kind == "send" && e.Ok {
+			sendStep[e.Val] = e.Step
+		}
+	}
+	// the harness' own drains are receptions too: the first one runs at step 1000 (concurrently with
+	// whatever is released during the join), the second after the join
+	for _, v := range out.Drained {
+		if s0, ok := firstRecv[v]; !ok || 1000 < s0 {
+			firstRecv[v] = 1000
+		}
+	}
+	for _, v := range out.DrainedLate {
+		if _, ok := firstRecv[v]; !ok {
+			firstRecv[v] = 1001
+		}
+	}
+	for _, e := range out.Events {
+		if e.Kind != "recv" || e.Ok || closeStep < 0 || e.Step <= closeStep {
+			continue
+		}
+		for v, ss := range sendStep {
+			rs, got := firstRecv[v]
+			if ss < e.Step && (!got || rs > e.Step) {
+				add("cell:null-while-buffered", fmt.Sprintf("goroutine %d's receive returned closed-and-empty at step %d although value %d (sent successfully at step %d) was still in the channel (received %s)", e.G, e.Step, v, ss, map[bool]string{true: fmt.Sprintf("at step %d", rs), false: "never"}[got]))
+				break
+			}
+		}
+	}
 	if len(out.DrainedLate) > 0 {
 		add("cell:value-after-closed-empty", fmt.Sprintf("values %v arrived in the channel after the final drain had seen it closed and empty (a send released after the close reported success)", out.DrainedLate))
 	}
@@ -590,7 +629,7 @@ func TestC09(t *testing.T) {
 	cfg := sb.LoadConfig("C09")
 	rec := sb.NewRec(cfg)
 	defer rec.Flush()
-	rec.R.Rule = "schedules over real goroutines driving std/channel (capacity 0..4, producers 1..3, consumers 1..3, closers 0..2, <= 3 operations each); a schedule is the sequence of choices 'which parked goroutine runs next', goroutines park before every operation and at the verif hook points inside Send and Close. Small configurations are enumerated completely by DFS with replay from scratch, larger ones draw the choices with rapid. History invariants at quiescence: multiset(received) = multiset(successful sends), per-sender order, nothing received that was not sent, send after close fails, no value turns up after a receive reported closed-and-empty, no panic, nobody stuck. Non-trivial = a close released while a send or another close is parked at its hook point, or two senders interleaving on a buffered channel; distinct by (configuration, chosen schedule)."
+	rec.R.Rule = "schedules over real goroutines driving std/channel (capacity 0..4, producers 1..3, consumers 1..3, closers 0..2, <= 3 operations each); a schedule is the sequence of choices 'which parked goroutine runs next', goroutines park before every operation and at the verif hook points inside Send, Receive and Close. Small configurations are enumerated completely by DFS with replay from scratch, larger ones draw the choices with rapid. History invariants at quiescence: multiset(received) = multiset(successful sends), per-sender order, nothing received that was not sent, send after close fails, no value turns up after a receive reported closed-and-empty, no receive reports closed-and-empty while a successfully sent value is still buffered, no panic, nobody stuck. Non-trivial = a close released while a send or another close is parked at its hook point, or two senders interleaving on a buffered channel; distinct by (configuration, chosen schedule)."
 	pool := &sb.Pool{}
 	defer pool.Close()
 	dl := time.Now().Add(budget(cfg, 60, 800))
